@@ -5,6 +5,7 @@ package main
 
 import (
 	"bufio"
+	"bytes"
 	"fmt"
 	"strconv"
 	"strings"
@@ -18,19 +19,27 @@ import (
 // withTimeout runs f (already panic-safe) and reports `hang` if it does not return: a helper that loops forever on
 // some input must not take the whole run down silently. After a hang the process cannot be trusted (the goroutine
 // keeps running), so the line is flushed and the process exits; the runner sees the short stream.
-func withTimeout(f func() string) string {
+func withTimeout(f func() string) string { return withTimeoutD(hangLimit, f) }
+
+func withTimeoutD(limit time.Duration, f func() string) string {
 	ch := make(chan string, 1)
 	go func() { ch <- safely(f) }()
 	select {
 	case r := <-ch:
 		return r
-	case <-time.After(5 * time.Second):
+	case <-time.After(limit):
 		hangExit = true
 		return "hang"
 	}
 }
 
 var hangExit bool
+
+// helpers and parsers answer in microseconds: 5 s is an endless loop (and keeps a loop that allocates from exhausting memory)
+var hangLimit = 5 * time.Second
+
+// for every other op (a 70 kB decode, a 2^24-step counter walk are the slowest legitimate ones)
+var hangLimitOuter = 60 * time.Second
 
 func hx(s string) string { return hexs([]byte(s)) }
 
@@ -778,4 +787,27 @@ func genConv14(g *Gen, w *bufio.Writer) {
 		fmt.Fprintf(w, "tzdec %d\n", v)
 		fmt.Fprintf(w, "dstdec %d\n", v)
 	}
+}
+
+// staleResult: a byte slice returned by the library belongs to the caller. f and other are two calls returning slices;
+// the result of f must survive a later call (same or different arguments) and a caller writing into another result.
+func staleResult(f, other func() []byte) string {
+	r1 := f()
+	keep := append([]byte{}, r1...)
+	r2 := other()
+	if !bytes.Equal(r1, keep) {
+		return "an earlier result changed when the function was called again (results share memory)"
+	}
+	full := r2[:cap(r2)]
+	for i := range full {
+		full[i] ^= 0xff
+	}
+	if !bytes.Equal(r1, keep) {
+		return "writing into one result changed another (results share memory)"
+	}
+	r3 := f()
+	if !bytes.Equal(r3, keep) {
+		return "the result changed after the caller wrote into an earlier result"
+	}
+	return ""
 }
